@@ -3,6 +3,7 @@ import Hy.Model.Hop
 import Hy.Model.PortUnion
 import Hy.Drv.Util
 import Hy.Drv.PortUnion
+import Hy.Drv.HopAddr
 namespace Hy.Drv.Hop
 open Hy Hy.Hop Hy.Drv
 
@@ -15,7 +16,7 @@ def showOut : Out → String
   | .hopOk new c => s!"hop new={new} closed={showOpt c}"
   | .hopListenErr => "hop listenerr"
   | .hopClosed => "hop closed"
-  | .wrote k p => s!"write sock={k} port={p}"
+  | .wrote k d => s!"write sock={k} ip={toHexF d.1} port={d.2}"
   | .writeSockErr k => s!"write sockerr={k}"
   | .writeClosed => "write closed"
   | .queued => "queued"
@@ -81,18 +82,17 @@ def init : Option St := none
 
 def step (σ : Option St) (line : String) : Option St × String :=
   match fields line with
-  | ["reset", expr, mn, mx, ok, idx] =>
-    match ofHex expr, mn.toInt?, mx.toInt?, parseBool ok, idx.toNat? with
-    | some bs, some mn, some mx, some ok, some idx =>
-      match Hy.PortUnion.parseChars (PortUnion.charsOfBytes bs) with
-      | none => (none, "new badexpr")
-      | some u =>
-        let ps := Hy.PortUnion.ports u
-        match newConn ps ⟨mn, mx⟩ ok idx with
-        | .ok s => (some s, s!"new ok n={ps.length}")
+  | ["reset", addr, ipres, mn, mx, ok, idx] =>
+    match ofHex addr, HopAddr.parseIpRes ipres, mn.toInt?, mx.toInt?, parseBool ok, idx.toNat? with
+    | some bs, some r, some mn, some mx, some ok, some idx =>
+      match Hy.HopAddr.resolveUDPHopAddr (fun _ => r) (PortUnion.charsOfBytes bs) with
+      | .error e => (none, "new " ++ HopAddr.showErr e)
+      | .ok a =>
+        match newConn (Hy.HopAddr.addrs a) ⟨mn, mx⟩ ok idx with
+        | .ok s => (some s, s!"new ok n={a.ports.length} ip={toHexF a.ip}")
         | .reject => (none, "new err")
         | .panic => (none, "new panic")
-    | _, _, _, _, _ => (σ, "bad-op")
+    | _, _, _, _, _, _ => (σ, "bad-op")
   | ["end"] => (none, "end")
   | ["interval", mn, mx] =>
     match mn.toInt?, mx.toInt? with
